@@ -192,6 +192,16 @@ def rule_b(ctx: Context, R: Reporter, fi: FuncInfo):
             it = head.stmt.iter
             rng_ok = isinstance(it, ast.Call) and dotted(it.func) == "range" and len(it.args) == 1 and isinstance(it.args[0], ast.Name) and it.args[0].id == size_param
             tgt = head.stmt.target
+            # `for i, position in enumerate(positions)` with positions an array of exactly `size` comb teeth
+            if not rng_ok and isinstance(it, ast.Call) and dotted(it.func) == "enumerate" and len(it.args) == 1 and isinstance(tgt, ast.Tuple) and len(tgt.elts) == 2:
+                from ..dataflow import Resolver as _R
+
+                seq = _R(fi.node).resolve(it.args[0], head)
+                ar = [c for c in ast.walk(seq) if isinstance(c, ast.Call) and (ctx.res.external_name(fi, c) or "") == "numpy.arange" and len(c.args) == 1
+                      and isinstance(c.args[0], ast.Name) and c.args[0].id == size_param]
+                if ar:
+                    rng_ok = True
+                    tgt = tgt.elts[0]
             idx_ok = isinstance(tgt, ast.Name) and isinstance(st.stmt.targets[0].slice, ast.Name) and st.stmt.targets[0].slice.id == tgt.id
             # unconditional: the store post-dominates the loop body entry (every iteration reaches it)
             body_entry = [t for (t, lab) in cfg.succ[head.id] if lab == ("iter", True)]
